@@ -58,7 +58,7 @@ class SeqRef:
             x, y, vec = self.ev(e[2], T), self.ev(e[3], T), self.inp[e[1]]
             for i in range(3):
                 if (vec >> i) & 1:
-                    return (x + i) & 15
+                    return x if (len(e) > 4 and e[4]) else (x + i) & 15
             return y
         if k == "pick":
             x, y = self.ev(e[2], T), self.ev(e[3], T)
